@@ -29,14 +29,19 @@
  ***************************************************************************)
 EXTENDS Integers, Sequences, FiniteSets, TLC, Json
 
-CONSTANTS Kinds,       \* which reference kinds to use
-          Acts, MaxOps, RecordHist
+CONSTANTS Kinds,       \* which reference kinds to use ("const": the constant target parameter k takes part)
+          Acts, MaxOps, RecordHist,
+          Clamp        \* TRUE: the sources clamp their own v to at most 4 in a depends(watch=True) method, so a
+                       \* source can change again while its first change is still being dispatched
 
 Sources == {1, 2}
 Scalars == {"p", "q"}
-PNames == {"p", "q", "r"}
+PNames == {"p", "q", "r", "k"}      \* k: Integer, constant=True, allow_refs (linked only by the constructor)
+NoneV == -1                          \* a source whose v is None (allowed there, invalid for p, q, k)
+CV(v) == IF Clamp /\ v > 4 THEN 4 ELSE v
 NoRef == [k |-> "none"]
-RefsFor(n) == IF n = "r" THEN {[k |-> "nested", s |-> i] : i \in Sources} \cap {x \in {[k |-> "nested", s |-> i] : i \in Sources} : "nested" \in Kinds}
+RefsFor(n) == IF n = "k" THEN (IF "const" \in Kinds THEN {[k |-> "param", s |-> 1], [k |-> "bind1", s |-> 2]} ELSE {})
+              ELSE IF n = "r" THEN {[k |-> "nested", s |-> i] : i \in Sources} \cap {x \in {[k |-> "nested", s |-> i] : i \in Sources} : "nested" \in Kinds}
               ELSE {[k |-> kk, s |-> i] : kk \in Kinds \cap {"param", "paramw", "bind1", "meth", "rx"}, i \in Sources}
                    \cup (IF "bind2" \in Kinds THEN {[k |-> "bind2"]} ELSE {})
 
@@ -44,11 +49,14 @@ VARIABLES src, srcw, link, val, ctx, nops, hist
 vars == <<src, srcw, link, val, ctx, nops, hist>>
 
 Deps(ref) == CASE ref.k = "none" -> {} [] ref.k = "bind2" -> Sources [] OTHER -> {ref.s}
+\* the source parameters a reference depends on
+DepP(ref) == CASE ref.k = "none" -> {} [] ref.k = "bind2" -> {<<1, "v">>, <<2, "v">>}
+               [] ref.k = "paramw" -> {<<ref.s, "w">>} [] OTHER -> {<<ref.s, "v">>}
 Resolve(ref, s) ==
   CASE ref.k = "param" -> s[ref.s]
     [] ref.k = "paramw" -> s[ref.s + 10]
-    [] ref.k \in {"bind1", "meth", "rx"} -> s[ref.s] + 1
-    [] ref.k = "bind2" -> s[1] + s[2]
+    [] ref.k \in {"bind1", "meth", "rx"} -> IF s[ref.s] = NoneV THEN NoneV ELSE s[ref.s] + 1      \* (the functions pass None through)
+    [] ref.k = "bind2" -> IF s[1] = NoneV \/ s[2] = NoneV THEN NoneV ELSE s[1] + s[2]
     [] ref.k = "nested" -> s[ref.s] + 100          \* encodes the list [v, 7]
 Valid(n, v) == IF n = "r" THEN TRUE ELSE v \in 0..5
 Env(sv, sw) == [i \in {1, 2, 11, 12} |-> IF i < 10 THEN sv[i] ELSE sw[i - 10]]
@@ -62,31 +70,40 @@ Init == /\ src \in [Sources -> {0, 2}] /\ srcw = [i \in Sources |-> 1]
         /\ link \in [PNames -> UNION {RefsFor(n) : n \in PNames} \cup {NoRef}]
         /\ \A n \in PNames : link[n] = NoRef \/ (link[n] \in RefsFor(n) /\ Valid(n, Resolve(link[n], Env(src, srcw))))
         /\ link["q"] = NoRef \/ link["p"] # NoRef      \* (symmetry: q is linked only if p is)
+        /\ ("const" \notin Kinds => link["k"] = NoRef)
         /\ val = [n \in PNames |-> IF link[n] = NoRef THEN (IF n = "r" THEN 107 ELSE 1) ELSE Resolve(link[n], Env(src, srcw))]
         /\ ctx = <<>> /\ nops = 0
-        /\ hist = IF RecordHist THEN <<[act |-> [name |-> "init", src |-> src, srcw |-> srcw, link |-> link], res |-> "ok", obs |-> Obs(val, link), kf |-> {}]>> ELSE <<>>
+        /\ hist = IF RecordHist THEN <<[act |-> [name |-> "init", src |-> src, srcw |-> srcw, link |-> link, clamp |-> Clamp], res |-> "ok", obs |-> Obs(val, link), kf |-> {}]>> ELSE <<>>
 
 Step == nops < MaxOps /\ nops' = nops + 1
 
 \* a source is assigned: every live link that depends on it follows, if the new value is valid
 \* one or both parameters of a source are assigned (both: in one batch, s.param.update(v=.., w=..))
-SetSource(i, v, w) ==
-  /\ "source" \in Acts /\ Step /\ (v # src[i] \/ w # srcw[i])
-  /\ LET s2 == [src EXCEPT ![i] = v]
+\* (order: which keyword comes first in the batch -- the dispatch order of the queued watchers depends on it)
+SetSource(i, v0, w, order) ==
+  /\ "source" \in Acts /\ Step /\ (CV(v0) # src[i] \/ w # srcw[i])
+  /\ (order = "wv" => (CV(v0) # src[i] /\ w # srcw[i]))
+  /\ LET v == CV(v0)
+         s2 == [src EXCEPT ![i] = v]
          w2 == [srcw EXCEPT ![i] = w]
-         touched == {n \in PNames : i \in Deps(link[n])}
-         aff == {n \in touched : Resolve(link[n], Env(s2, w2)) # Resolve(link[n], Env(src, srcw))}
+         changed == (IF v # src[i] THEN {<<i, "v">>} ELSE {}) \cup (IF w # srcw[i] THEN {<<i, "w">>} ELSE {})
+         \* every link that depends on a changed source parameter is resolved again (also one whose
+         \* resolved value was and stays invalid: the source assignment raises again)
+         touched == {n \in PNames : DepP(link[n]) \cap changed # {}}
+         aff == touched
          bad == {n \in aff : ~Valid(n, Resolve(link[n], Env(s2, w2)))}
      IN /\ (bad # {} => Cardinality(touched) = 1)        \* (several links, one invalid: order-dependent, outside the domain)
         /\ src' = s2 /\ srcw' = w2
         /\ val' = [n \in PNames |-> IF n \in aff \ bad THEN Resolve(link[n], Env(s2, w2)) ELSE val[n]]
         /\ UNCHANGED <<link, ctx>>
-        /\ Rec("source", [i |-> i, v |-> v, w |-> w, both |-> (v # src[i] /\ w # srcw[i])], IF bad = {} THEN "ok" ELSE "invalid", val', link, {})
+        /\ Rec("source", [i |-> i, v |-> v0, w |-> w, both |-> (v # src[i] /\ w # srcw[i]), order |-> order], IF bad = {} THEN "ok" ELSE "invalid", val', link, {})
 
 \* the target parameter n is assigned a reference
 SetRef(n, ref) ==
   /\ "ref" \in Acts /\ Step /\ ref \in RefsFor(n)
-  /\ IF Valid(n, Resolve(ref, Env(src, srcw)))
+  \* (a constant parameter may be re-assigned the identical object: a reference that currently resolves to it is left out)
+  /\ (n = "k" => Resolve(ref, Env(src, srcw)) # val["k"])
+  /\ IF n # "k" /\ Valid(n, Resolve(ref, Env(src, srcw)))
      THEN /\ link' = [link EXCEPT ![n] = ref] /\ val' = [val EXCEPT ![n] = Resolve(ref, Env(src, srcw))]
           /\ Rec("ref", [n |-> n, ref |-> ref], "ok", val', link', {})
      ELSE /\ UNCHANGED <<link, val>>
@@ -95,8 +112,8 @@ SetRef(n, ref) ==
 
 \* the target parameter n is assigned a plain value (9 is invalid for p and q)
 SetPlain(n, v) ==
-  /\ "plain" \in Acts /\ Step
-  /\ IF Valid(n, v)
+  /\ "plain" \in Acts /\ Step /\ (n = "k" => ("const" \in Kinds /\ v # val["k"]))
+  /\ IF n # "k" /\ Valid(n, v)
      THEN /\ link' = [link EXCEPT ![n] = NoRef] /\ val' = [val EXCEPT ![n] = v]
           /\ Rec("plain", [n |-> n, v |-> v], "ok", val', link', IF link[n] # NoRef THEN {"KF_OverrideLeavesWatcher"} ELSE {})
      ELSE /\ UNCHANGED <<link, val>>
@@ -119,7 +136,7 @@ ExitUpd ==
      /\ ctx' = <<>> /\ UNCHANGED <<src, srcw, nops>>
      /\ Rec("exitupd", <<>>, "ok", val', link', {})
 
-Next == \/ \E i \in Sources, v \in {0, 2, 4, 5}, w \in {1, 3} : SetSource(i, v, w)
+Next == \/ \E i \in Sources, v \in {0, 2, 4, 5, NoneV}, w \in {1, 3}, o \in {"vw", "wv"} : SetSource(i, v, w, o)
         \/ \E n \in PNames : \E ref \in RefsFor(n) : SetRef(n, ref)
         \/ \E n \in PNames : \E v \in (IF n = "r" THEN {107} ELSE {3, 9}) : SetPlain(n, v)
         \/ \E n \in Scalars, form \in {"kw", "dict"} : EnterUpd(n, 3, form)
